@@ -17,8 +17,8 @@ META = {
             "storages, one failure point per storage out of {Querier(), Select, first Next, Next after j series, LabelNames/Values, Append, "
             "Commit}. Sample-iterator failures inside a series and Close errors are not injected. Which set carries a secondary's warning "
             "is not fixed (union over the query is compared). Outcomes after a secondary's Append/Commit failure are implementation-shaped "
-            "(drift only). Known findings KF-C54-1 (secondary Querier() error fails fanout.Querier) and KF-C54-2 (secondary failing on a "
-            "later Next is not discarded and fails the query).",
+            "(drift only). KF-C54-1 (a secondary's Querier() error failed fanout.Querier) is repaired by commit b4c7e21123 and now "
+            "checked; open known finding KF-C54-2 (a secondary failing on a later Next is not discarded and fails the query).",
     "technique": "TLA+ reference + transcription (Fanout.tla) model-checked by TLC; TLC-enumerated configurations replayed into storage.NewFanout "
                  "over failure-injecting fakes wrapping real TSDBs",
     "design_ref": "DESIGN.md §5 C54, §7 H6",
@@ -49,7 +49,7 @@ def run(ctx):
         return cases[0]
     ctx.samples = [pick(lambda c: c["op"] == "query" and not c["kf"] and c["ref"]["warns"]),
                    pick(lambda c: c["op"] == "query" and c["nsel"] == 2 and not c["kf"] and c["ref"]["warns"]),
-                   pick(lambda c: "KF_C54_1" in c["kf"]), pick(lambda c: "KF_C54_2" in c["kf"]),
+                   pick(lambda c: any(f["k"] == "querier" for f in c["fail"][1:]) and not c["kf"]), pick(lambda c: "KF_C54_2" in c["kf"]),
                    pick(lambda c: c["op"] == "labels" and c["ref"]["warns"]),
                    pick(lambda c: c["op"] == "append" and c["fail"][0]["k"] == "commit")]
     inp = ctx.write_ndjson("cases.ndjson", cases)
